@@ -413,25 +413,35 @@ func runC19(c *Ctx) {
 			helper := f("removeStream")
 			for _, name := range []string{"AddTagsCtx", "RemoveTagsCtx", "RemoveTagsById", "addStream"} {
 				fn := f("(*streamPool)." + name)
-				touchesTags := len(FieldWrites([]*ssa.Function{fn}, tags)) > 0
-				touchesIdx := len(FieldWrites([]*ssa.Function{fn}, byTag)) > 0
-				for _, cs := range CallSinks(fn, CalleeFn(helper), false) {
+				// (the paired update may sit in a "…Locked" helper new since the anchor snapshot; the
+				// lockset analysis enters such a helper with the locks all its callers hold)
+				region := regionFuncs(fn)
+				var helperCalls []ssa.Instruction
+				for _, f := range region {
+					if la.Summary(f) == nil {
+						continue
+					}
+					helperCalls = append(helperCalls, CallSinks(f, CalleeFn(helper), false)...)
+				}
+				touchesTags := len(FieldWrites(region, tags)) > 0
+				touchesIdx := len(FieldWrites(region, byTag)) > 0
+				for _, cs := range helperCalls {
 					if IsLoadOfField(cs.(*ssa.Call).Call.Args[0], byTag) {
 						touchesIdx = true
 					}
 				}
 				locked := true
-				for _, w := range FieldWrites([]*ssa.Function{fn}, tags) {
+				for _, w := range FieldWrites(region, tags) {
 					if w.Kind != "init" && !la.Must(w.Instr)[mu] {
 						locked = false
 					}
 				}
-				for _, w := range FieldWrites([]*ssa.Function{fn}, byTag) {
+				for _, w := range FieldWrites(region, byTag) {
 					if !la.Must(w.Instr)[mu] {
 						locked = false
 					}
 				}
-				for _, cs := range CallSinks(fn, CalleeFn(helper), false) {
+				for _, cs := range helperCalls {
 					if !la.Must(cs)[mu] {
 						locked = false
 					}
